@@ -1,17 +1,28 @@
 #!/bin/bash
 # run_all_seeds.sh [seed-name ...] : apply every seeded change (or the named ones) in turn, run the quick check of its
-# property, record the verdict in seeded/RESULTS.tsv (rows of seeds not run are kept)
-cd /verif
-out=${RESULTS_OUT:-seeded/RESULTS.tsv}
+# property, record the verdict in seeded/RESULTS.tsv (rows of seeds not run are kept).
+# Works ONLY on scratch copies: a clone of /repo and a copy of /verif (with its Lean build) under $SWEEP_DIR, with
+# MINGUS_REPO pointing at the clone. /repo, /verif/evidence, /verif/lean and /verif/replays are never touched, so a sweep
+# that is interrupted (or still running when something else looks at the tree) cannot leave a seeded change in /repo or
+# a seeded run's evidence in /verif. Run it in the foreground and let it finish; it removes its scratch copies on exit.
+set -u
+SW=${SWEEP_DIR:-/root/scratch/sweep.$$}
+out=${RESULTS_OUT:-/verif/seeded/RESULTS.tsv}
 tmp=$(mktemp)
-if [ $# -gt 0 ]; then names="$@"; else names=$(cd seeded && ls -d C*/ | tr -d /); fi
+trap 'rm -rf "$SW" "$tmp"' EXIT
+rm -rf "$SW"; mkdir -p "$SW" || exit 2
+git clone -q /repo "$SW/repo" || exit 2
+rsync -a --exclude .git --exclude replays --exclude soak.log /verif/ "$SW/verif/" || exit 2
+export MINGUS_REPO="$SW/repo"
+cd "$SW/verif"
+if [ $# -gt 0 ]; then names="$@"; else names=$(cd /verif/seeded && ls -d C*/ | tr -d /); fi
 for name in $names; do
   d=seeded/$name; id=${name%%-*}
-  ( cd /repo && git apply /verif/$d/patch.diff ) || { printf '%s\t%s\t-\tpatch does not apply\t\n' "$name" "$id" >> $tmp; continue; }
+  ( cd "$MINGUS_REPO" && git apply /verif/$d/patch.diff ) || { printf '%s\t%s\t-\tpatch does not apply\t\n' "$name" "$id" >> $tmp; continue; }
   log=$(./check $id quick 2>&1); rc=$?
-  git -C /repo checkout -- .
+  git -C "$MINGUS_REPO" checkout -- .
   v=$(echo "$log" | grep -a "^VIOLATION" | head -1)
-  first=$(echo "$log" | grep -a -m1 "^property $id fails\|^PROOF\|^proof\|no-failing-input" | cut -c1-160 | tr '\t\r\n\\' '    ')
+  first=$(echo "$log" | grep -a -m1 "^property $id fails\|^PROOF\|^proof\|no-failing-input" | sed "s#$SW/verif#/verif#g" | cut -c1-160 | tr '\t\r\n\\' '    ')
   kind="concrete input"
   echo "$v" | grep -q "no-failing-input-found" && kind="no-failing-input-found"
   [ -z "$v" ] && kind="NOT DETECTED"
@@ -38,7 +49,4 @@ with open(out, "w") as f:
     for k in sorted(rows):
         f.write(rows[k] + "\n")
 PY
-rm -f $tmp
-# leave evidence of the clean tree behind
-for i in $(echo $names | tr ' ' '\n' | sed 's/-.*//' | sort -u); do ./check $i quick >/dev/null 2>&1 || echo "WARNING clean $i failed"; done
 echo done
